@@ -316,7 +316,8 @@ class Transplants(Unit):
 
         # transplant as raw bytes (DefaultTable-like injection through the reader path)
         f2 = TTFont(io.BytesIO(hdata), fontNumber=hidx)
-        f2.reader.tables[tag].__class__  # host must own the tag
+        if tag not in f2.reader.tables:
+            rec.witness("transplant into a host without that table")
         t = newTable(tag)
         try:
             t.decompile(blob, f2)
